@@ -1419,6 +1419,10 @@ func run(ctx *Ctx) *Result {
 		res.CountN("inconclusive:runs-dropped-environment", int(n))
 		res.Notes = append(res.Notes, fmt.Sprintf("%d process runs could not be started or were killed (environment); retried 3 times, dropped, not compared", n))
 	}
+	if n := sessionNoise.Load(); n > 0 {
+		res.CountN("session-noise:time-stamped-log-lines-dropped", int(n))
+		res.Notes = append(res.Notes, fmt.Sprintf("%d time-stamped lines of Go's log package (goexpect: 'send failed' at tear-down of the dialogue) dropped from the stderr of session runs before comparing", n))
+	}
 	separationPass(res, cases)
 	if ctx.Replay == "" {
 		res.Notes = append(res.Notes, fmt.Sprintf("%d inputs, %d runs of the real drc in fresh processes (6 to 40 per input in quick, by size; see runsFor)", len(cases), res.Distribution["process_runs"]))
